@@ -341,15 +341,20 @@ where
                     count
                 };
 
-                // We can flush at most u16::MAX pages at once.
-                let count = u16::try_from(count).unwrap_or(u16::MAX);
+                // `count` pages (at least one) are still to be flushed in this half. The
+                // instruction takes the number of *additional* pages to flush after the first
+                // one, so a request with count field `n` covers `n + 1` pages.
+                let additional = count.saturating_sub(1);
+
+                // The count field is 16 bits wide.
+                let additional = u16::try_from(additional).unwrap_or(u16::MAX);
 
                 // Cap the count by the maximum supported count of the processor.
-                let count = cmp::min(count, self.invlpgb.invlpgb_count_max);
+                let additional = cmp::min(additional, self.invlpgb.invlpgb_count_max);
 
                 unsafe {
                     flush_broadcast(
-                        Some((pages.start, count)),
+                        Some((pages.start, additional)),
                         self.pcid,
                         self.asid,
                         self.include_global,
@@ -358,11 +363,9 @@ where
                     );
                 }
 
-                // Even if the count is zero, one page is still flushed and so
-                // we need to advance by at least one.
-                let inc_count = cmp::max(count, 1);
+                // The request covered `additional + 1` pages.
                 pages.start =
-                    Page::forward_checked_impl(pages.start, usize::from(inc_count)).unwrap();
+                    Page::forward_checked_impl(pages.start, usize::from(additional) + 1).unwrap();
             }
         } else {
             unsafe {
